@@ -13,7 +13,8 @@ RULE = (
     "Hypothesis-generated INI specs: 1-5 prefix-free dotted section names (case-sensitive parts), 0-4 "
     "options each; values are sequences of pieces: literal text (incl. = : # % ; unicode, inner spaces), "
     "escaped dollars ($$, also before '{'), ${key} / ${section:key} references to earlier options, "
-    "${ENVVAR} of a harness-set variable, the generated config-dir path, and optional continuation "
+    "${ENVVAR} of a harness-set variable, the generated config-dir path (components may contain a "
+    "literal dollar, as may the replacement directory), and optional continuation "
     "lines. Oracle: c2 = Config(config_dict=c1.get_config_dict()) has the same nested section tree "
     "and the same effective value for every option; with replace_config_dir=R the effective value is "
     "eff.replace(config_dir, R), i.e. only values containing the directory change. Non-trivial = >=2 "
@@ -52,7 +53,7 @@ def specs(draw):
                 ok = False
         if ok:
             names.append(name)
-    confdir = "/" + "/".join(draw(st.lists(st.sampled_from(["tmp", "home", "u", ".redun", "cfg"]), min_size=1, max_size=3)))
+    confdir = "/" + "/".join(draw(st.lists(st.sampled_from(["tmp", "home", "u", ".redun", "cfg", "pro$ject", "$x"]), min_size=1, max_size=3)))
     sections = []
     defined: list[tuple[str, str]] = []
     for name in names:
@@ -83,7 +84,7 @@ def specs(draw):
             if not any(p[0] == "env" for p in pieces):
                 defined.append((name, key))
         sections.append([name, opts])
-    repl = draw(st.sampled_from([".", "/other/dir", "", "REPL"]))
+    repl = draw(st.sampled_from([".", "/other/dir", "", "REPL", "/mnt/$shared/.redun", "/m/${k0}", "$$"]))
     return {"confdir": confdir, "sections": sections, "replace": repl}
 
 
@@ -103,7 +104,7 @@ def render(spec: dict) -> str:
                 elif p[0] == "env":
                     cur += "${" + ENV_NAME + "}"
                 elif p[0] == "dir":
-                    cur += spec["confdir"] + p[1]
+                    cur += spec["confdir"].replace("$", "$$") + p[1]
                 elif p[0] == "cont":
                     cur += "\n    x" + p[1]
             lines.append(f"{key} = {cur}")
